@@ -59,14 +59,12 @@ Print Assumptions C12_enumerator_by_flag.
 
 (* the generated check is complete and sound for EVERY kind of declaration that is given a check
    value [e]: lib.X raises ffi.error iff the C value differs from e (as a mathematical integer:
-   64-bit pattern and sign), and the name used as an array length raises too (except for the
-   C value 0, finding zero-const-array-length). *)
+   64-bit pattern and sign), and the name used as an array length raises too. *)
 Theorem C12_checked_declaration_iff : forall k T c cdef e,
   promoted T -> in_range T c -> - 2 ^ 64 < e < 2 ^ 64 -> check_value_of k cdef = Some e ->
   lib_constant k T c cdef = Some (if c =? e then Ok c else Err FFIError) /\
   const_array_length k T c cdef =
-    Some (Ok (if c =? e then length_of_value c
-              else if c =? 0 then PSLen 0 else PSErr PSDisagree)).
+    Some (Ok (if c =? e then length_of_value c else PSErr PSDisagree)).
 Proof. exact checked_kind_iff. Qed.
 Print Assumptions C12_checked_declaration_iff.
 
@@ -95,68 +93,55 @@ Print Assumptions C12_const_literal_outside_C.
 
    The decision, for every return code [neg] an int can hold and every 64-bit [value]:
    code 0 ("positive, agrees"): the value if it fits a ssize_t, else "too large";
-   any other code: a length only when the value is 0 (and then the length is 0);
-   code 1 ("<= 0, agrees") with a non-zero value: "expected a positive integer constant";
-   every other code (2, 3 = "the C compiler disagrees with the cdef") with a non-zero value:
-   "disagreement about this constant's value". *)
+   code 1 ("<= 0, agrees"): length 0 when the value is 0, else "expected a positive integer
+   constant";
+   every other code (2, 3 = "the C compiler disagrees with the cdef"), whatever the value:
+   "disagreement about this constant's value".
+   (Until /repo 8e135ea the value 0 was accepted under every code: finding
+   zero-const-array-length, fixed; its witness is still generated on every run.) *)
 Theorem C12_array_length_decision : forall neg value,
   - 2 ^ 31 <= neg < 2 ^ 31 -> 0 <= value < 2 ^ 64 ->
   gen_ps_const_length neg value =
     if neg =? 0 then (if value <=? 2 ^ 63 - 1 then PSLen value else PSErr PSTooLarge)
-    else if value =? 0 then PSLen 0
-    else if neg =? 1 then PSErr PSNotPositive
+    else if neg =? 1 then (if value =? 0 then PSLen 0 else PSErr PSNotPositive)
     else PSErr PSDisagree.
 Proof. exact ps_decision. Qed.
 Print Assumptions C12_array_length_decision.
 
-(* in particular the getter's code 2 — a POSITIVE C value that differs from the cdef's; the getter
-   returns code 0 or 2 exactly when the value is > 0 — never yields a length *)
+(* in particular the getter's "disagrees" codes never yield a length *)
 Theorem C12_array_length_mismatch_code_is_error : forall neg value,
-  - 2 ^ 31 <= neg < 2 ^ 31 -> 0 < value < 2 ^ 64 -> neg <> 0 -> neg <> 1 ->
+  - 2 ^ 31 <= neg < 2 ^ 31 -> 0 <= value < 2 ^ 64 -> neg <> 0 -> neg <> 1 ->
   gen_ps_const_length neg value = PSErr PSDisagree.
-Proof. exact ps_mismatch_code_nonzero. Qed.
+Proof. exact ps_mismatch_code. Qed.
 Print Assumptions C12_array_length_mismatch_code_is_error.
 
-(* a length that comes out is the getter's value (the compiler's), within ssize_t *)
+(* a length that comes out is the getter's value (the compiler's), within ssize_t, and the
+   getter said "agrees" *)
 Theorem C12_array_length_is_getter_value : forall neg value n,
   - 2 ^ 31 <= neg < 2 ^ 31 -> 0 <= value < 2 ^ 64 ->
-  gen_ps_const_length neg value = PSLen n -> n = value /\ 0 <= n <= 2 ^ 63 - 1.
+  gen_ps_const_length neg value = PSLen n ->
+  n = value /\ 0 <= n <= 2 ^ 63 - 1 /\ (neg = 0 \/ neg = 1).
 Proof. exact ps_length_is_value. Qed.
 Print Assumptions C12_array_length_is_getter_value.
 
 (* end to end (generated getter with its _cffi_check_int test, then parse_sequel): checked
    '#define N <e>' against a C constant of any promoted type and value c.
    c = e: the length is c when 0 <= c <= SSIZE_MAX, an error otherwise (negative / too large);
-   c <> e: an error — EXCEPT when c = 0, see the next two theorems. *)
+   c <> e: always the "disagreement" error. *)
 Theorem C12_array_length_checked : forall T c e,
   promoted T -> in_range T c -> - 2 ^ 64 < e < 2 ^ 64 ->
   const_array_length KMacro T c (Some e) =
-    Some (Ok (if c =? e then length_of_value c
-              else if c =? 0 then PSLen 0 else PSErr PSDisagree)).
+    Some (Ok (if c =? e then length_of_value c else PSErr PSDisagree)).
 Proof. exact array_length_checked. Qed.
 Print Assumptions C12_array_length_checked.
 
 (* "where a checked integer constant disagrees with the C source, using it raises an error":
-   proved for every C value except 0 (hence _partial) *)
-Theorem C12_array_length_mismatch_raises_partial : forall T c e,
-  promoted T -> in_range T c -> - 2 ^ 64 < e < 2 ^ 64 -> c <> e -> c <> 0 ->
+   for every C value and every cdef value *)
+Theorem C12_array_length_mismatch_raises : forall T c e,
+  promoted T -> in_range T c -> - 2 ^ 64 < e < 2 ^ 64 -> c <> e ->
   const_array_length KMacro T c (Some e) = Some (Ok (PSErr PSDisagree)).
 Proof. exact array_length_mismatch_raises. Qed.
-Print Assumptions C12_array_length_mismatch_raises_partial.
-
-(* ... and false for the C value 0: `if (neg == 0 || gc.value == 0)` accepts the value 0 under
-   every return code, including 3 (= "<= 0" | "disagrees").  Witness: cdef '#define N 5', C source
-   '#define N 0': ffi.typeof("char[N]") is char[0] silently while lib.N raises ffi.error.
-   Replayed on the real code by every run (findings/C12.json, key zero-const-array-length;
-   proposed repair findings/C12-zero-const-array-length.diff). *)
-Theorem C12_array_length_zero_mismatch_refuted :
-  exists T c e, promoted T /\ in_range T c /\ - 2 ^ 64 < e < 2 ^ 64 /\ c <> e /\
-                const_array_length KMacro T c (Some e) = Some (Ok (PSLen 0)).
-Proof.
-  exists s32, 0, 5. split; [left; reflexivity|]. split; [vm_compute; split; discriminate|].
-  split; [split; reflexivity|]. split; [discriminate | vm_compute; reflexivity].
-Qed.
-Print Assumptions C12_array_length_zero_mismatch_refuted.
+Print Assumptions C12_array_length_mismatch_raises.
 
 (* '#define N ...', 'static const <int type> N;' and enumerators (no check value is passed for
    them, see C12_enumerator_check_refuted): the compiler's value, silently, when it is a valid
@@ -256,6 +241,8 @@ Example C12_example_array_length :
   const_array_length KMacro s32 9 (Some 6) = Some (Ok (PSErr PSDisagree)) /\
   const_array_length KMacro s32 3 (Some 12) = Some (Ok (PSErr PSDisagree)) /\
   const_array_length KMacro s32 (-2) (Some 5) = Some (Ok (PSErr PSDisagree)) /\
+  const_array_length KMacro s32 0 (Some 5) = Some (Ok (PSErr PSDisagree)) /\
+  const_array_length KMacro s32 0 (Some 0) = Some (Ok (PSLen 0)) /\
   const_array_length KMacro s32 (-3) (Some (-3)) = Some (Ok (PSErr PSNotPositive)) /\
   const_array_length KMacro s32 9 None = Some (Ok (PSLen 9)) /\
   const_array_length KMacro u64 (2 ^ 63) None = Some (Ok (PSErr PSTooLarge)) /\
